@@ -91,10 +91,6 @@ func runC11(c *ctx, via string, vol float64, repeat, freq, peak, sd time.Duratio
 	R, f, mu, s := float64(repeat), float64(freq), float64(peak), float64(sd)
 	mass := cdf(R-f, mu, s) - cdf(0, mu, s)
 	edge := f * (phi(0, mu, s) + phi(R-f, mu, s) + phi(R, mu, s)) / mass
-	peakTick := int(math.Round(mu / f))
-	if peakTick >= nTicks {
-		peakTick = nTicks - 1
-	}
 	// the windows are normally visited one after another; every third weighted trace visits them out of
 	// order (a window skipped, the clock stepped back): each window's volume depends on ITS place in the
 	// weight cycle only
@@ -107,6 +103,21 @@ func runC11(c *ctx, via string, vol float64, repeat, freq, peak, sd time.Duratio
 			visit[k] = c.rng.Intn(nWin + 3)
 		}
 		tr.Args += fmt.Sprintf(" visit=%v", visit)
+	}
+	// a real ticker does not fire on the window grid: every third trace shifts all its ticks by one constant phase
+	// inside the tick period
+	phase := time.Duration(0)
+	if c.rng.Intn(3) == 0 {
+		phase = time.Duration(c.rng.Int63n(int64(freq)))
+		tr.Args += fmt.Sprintf(" phase=%s", phase)
+	}
+	// the tick nearest the configured peak (ticks are at j*freq + phase inside the window)
+	peakTick := int(math.Round((mu - float64(phase)) / f))
+	if peakTick >= nTicks {
+		peakTick = nTicks - 1
+	}
+	if peakTick < 0 {
+		peakTick = 0
 	}
 	for _, k := range visit {
 		start := t0.Add(time.Duration(k) * repeat)
@@ -121,7 +132,7 @@ func runC11(c *ctx, via string, vol float64, repeat, freq, peak, sd time.Duratio
 			w.Wk = 100
 		}
 		for j := 0; j < nTicks; j++ {
-			v := int64(rateFn(start.Add(time.Duration(j) * freq)))
+			v := int64(rateFn(start.Add(time.Duration(j)*freq + phase)))
 			w.S += v
 			if v > w.MaxV {
 				w.MaxV = v
